@@ -1,6 +1,7 @@
 package main
 
 import (
+	"strings"
 	"encoding/json"
 	"fmt"
 	"reflect"
@@ -54,6 +55,11 @@ func callAnalyse(d *drv.Driver, a *analysed) (*modelAnalysis, error) {
 // withSpecEnums returns a copy of env in which the members of every enum are those of the
 // specification model of the analysis (computed from the go/types facts), when it has the enum.
 func withSpecEnums(d *drv.Driver, a *analysed, env *irdump.Env) *irdump.Env {
+	return withSpecDecls(d, a, env, false)
+}
+
+// withSpecDecls: the same, and with specStructs the field lists of the structs as well
+func withSpecDecls(d *drv.Driver, a *analysed, env *irdump.Env, specStructs bool) *irdump.Env {
 	m, err := callAnalyse(d, a)
 	if err != nil || m == nil || m.Env == nil {
 		return env
@@ -69,6 +75,22 @@ func withSpecEnums(d *drv.Driver, a *analysed, env *irdump.Env) *irdump.Env {
 	}
 	for i, dd := range out.Decls {
 		sd := spec[dd.Q]
+		if sd != nil && sd.Kind == "struct" && dd.Kind == "struct" && specStructs {
+			// the fields (flattened, with their tags) as the specification model lists them; key and
+			// selection of each field by the rules of encoding/json
+			for k := range sd.Fields {
+				f := &sd.Fields[k]
+				tag := reflect.StructTag(f.Tag)
+				name, _, _ := strings.Cut(tag.Get("json"), ",")
+				f.JSONName = f.Name
+				if name != "" {
+					f.JSONName = name
+				}
+				f.Exported = f.GoExported && tag.Get("json") != "-" && tag.Get("gomacro") != "ignore"
+			}
+			dd.Fields = sd.Fields
+			continue
+		}
 		if sd == nil || sd.Kind != "enum" {
 			continue
 		}
